@@ -1,5 +1,7 @@
 package main
 
+import "go/types"
+
 var c17Pure = []string{"sortints.Union", "sortints.Intersection", "sortints.IntersectionSize", "sortints.SetMinus", "sortints.XOR",
 	"sortints.Complement", "sortints.ContainsSingle", "sortints.ContainsSorted", "sortints.Range", "sortints.NewSortedInts"}
 var c17Mutators = []string{"(*sortints.SortedInts).Add", "(*sortints.SortedInts).Remove", "(*sortints.SortedInts).Union"}
@@ -74,7 +76,23 @@ func init() {
 				{pkgRel: "itertools", typ: "PermutationIterator", field: "p", allowed: []string{"(*itertools.PermutationIterator).Next"}},
 				{pkgRel: "itertools", typ: "LexicographicPermutationIterator", field: "a", allowed: []string{"(*itertools.LexicographicPermutationIterator).Next", "(*itertools.MultisetPermutationIterator).Next"}},
 			})
-			return []*RuleResult{sw, fw}
+			rt := &RuleResult{Rule: "OWN-STATE", Doc: "an iterator built from caller slices keeps its own copy: the value returned by the constructor reaches none of the caller's slice arguments (function arguments excepted), so rewriting the slice later cannot change what is enumerated", MinInst: 8}
+			for _, n := range []string{"itertools.Combinations", "itertools.CombinationsColex", "itertools.MultisetPermutations", "itertools.Permutations", "itertools.LexicographicPermutations",
+				"itertools.Partitions", "itertools.IntegerPartitions", "itertools.Product", "itertools.RestrictedPrefixProduct", "itertools.RestrictedPrefixPermutations", "itertools.PermutationsByPattern", "itertools.TopologicalSorts"} {
+				fn := c.Fn(n)
+				var slices, funcs []int
+				for i, p := range fn.Params {
+					switch p.Type().Underlying().(type) {
+					case *types.Slice:
+						slices = append(slices, i)
+					case *types.Signature:
+						funcs = append(funcs, i)
+					}
+				}
+				freshResult(c, rt, fn, 0, slices, funcs, "does not alias the caller's slices")
+			}
+			rt.note("itertools.MultisetCombinations keeps its argument m by design on the pinned tree (listed under C19 RETAIN); it is not judged here")
+			return []*RuleResult{sw, fw, rt}
 		},
 		controls: func(ctl *Ctx) []*RuleResult { return swapControls(ctl) },
 	})
